@@ -51,13 +51,10 @@ fn judge(x: &str, with_check_cmd: bool, st: &mut Stats) -> Option<(String, Strin
         };
         match (&r, &got) {
             (Ok(text), Ok(printed)) => {
-                let expect = if printed == x {
-                    format!("Version: {x}\n✓ Valid SemVer format")
-                } else {
-                    format!("Version: {x}\n✓ Valid SemVer format (normalized: {printed})")
-                };
-                if *text != expect {
-                    return Some(("check_text_mismatch".into(), format!("check says {text:?}, expected {expect:?}")));
+                // the statement fixes the verdict, not the wording: the report must show the parsed version (the input
+                // without its `v`) somewhere, whatever the surrounding text says
+                if !text.contains(printed.as_str()) {
+                    return Some(("check_text_mismatch".into(), format!("check says {text:?}, which does not show the parsed version {printed:?}")));
                 }
             }
             (Err(_), Err(_)) => {}
